@@ -20,11 +20,16 @@ for d in sorted(glob.glob("/verif/seeded/*")):
     if r.returncode != 0:
         print(sid, "patch does not apply", r.stderr[:200]); out[sid] = {"applies": False}; continue
     try:
-        c = subprocess.run(f"cd /verif && ./check {prop} --tier quick", shell=True, capture_output=True, text=True)
-        lines = [l for l in c.stdout.split("\n") if l.startswith("VIOLATION") or l.startswith("FRAMEWORK")]
-        out[sid] = {"property": prop, "exit": c.returncode, "violations": [l.split("replay=")[-1].split("/")[-1] for l in lines][:5],
-                    "caught": c.returncode == 1}
-        print(sid, "exit", c.returncode, "CAUGHT" if c.returncode == 1 else "MISSED", out[sid]["violations"][:2])
+        per_seed = {}
+        for vs in os.environ.get("SEEDS", "0").split():
+            c = subprocess.run(f"cd /verif && VERIF_SEED={vs} ./check {prop} --tier quick", shell=True, capture_output=True, text=True)
+            lines = [l for l in c.stdout.split("\n") if l.startswith("VIOLATION") or l.startswith("FRAMEWORK")]
+            per_seed[vs] = {"exit": c.returncode, "violations": [l.split("replay=")[-1].split("/")[-1] for l in lines][:3]}
+        first = per_seed[sorted(per_seed)[0]]
+        out[sid] = {"property": prop, "exit": first["exit"], "violations": first["violations"],
+                    "caught": all(v["exit"] == 1 for v in per_seed.values()),
+                    "per_verif_seed": {k: v["exit"] == 1 for k, v in per_seed.items()}}
+        print(sid, "CAUGHT" if out[sid]["caught"] else "MISSED", out[sid]["per_verif_seed"], first["violations"][:2])
     finally:
         subprocess.run("git -C /repo checkout -- .", shell=True)
 json.dump(out, open(path, "w"), indent=1)
